@@ -47,6 +47,21 @@ THEOREMS = [
       run_buf p (with_capacity (mksrc data o1 i1) c1) = run_ideal p (bits_of_bytes data) /\\
       run_buf p (with_capacity (mksrc data o1 i1) c1) = run_buf p (with_capacity (mksrc data o2 i2) c2)"""),
 ]
+_KREQ = ["From Coq Require Import List NArith Bool.",
+         "From MS Require Import Base.Bytes Base.Outcome Webp.BitBufSpec Gen.Lz77Kernel Props.C19k.", "Open Scope N_scope."]
+THEOREMS = THEOREMS + [
+    ("C19_lz77_kernel_matches", """lz77_direct_last_src = 3 /\\ lz77_max_symbol_src = 39 /\\
+  forall c, 4 <= c -> c <= 39 ->
+    lz77_extra_src c = (c - 2) / 2 /\\ lz77_offset_src c = (2 + c mod 2) * 2 ^ ((c - 2) / 2)"""),
+    ("C19_lz77_extra_bits_is_src", """forall c,
+  lz77_extra_bits c = if c <=? lz77_direct_last_src then 0 else if c <=? lz77_max_symbol_src then lz77_extra_src c else 0"""),
+    ("C19_ideal_read_lz77_is_src", """forall c bits, 4 <= c -> c <= 39 -> lz77_extra_src c <= slen bits ->
+  ideal_read_lz77 c bits =
+  (Ok (lz77_offset_src c + num_of_bits (firstn (N.to_nat (lz77_extra_src c)) bits) + 1), skipn (N.to_nat (lz77_extra_src c)) bits)"""),
+]
+REQUIRES_FOR = {"C19_lz77_kernel_matches": _KREQ, "C19_lz77_extra_bits_is_src": _KREQ, "C19_ideal_read_lz77_is_src": _KREQ}
+COQ_TARGETS = COQ_TARGETS + ["theories/Props/C19k.vo"]
+COQCHK = COQCHK + ["MS.Props.C19k"]
 TRUSTED = [
     "Coq 8.16.1 kernel (coqc; coqchk in the thorough tier); vm_compute only in the refutation witness and the Examples; no native_compute",
     "axioms: none (Print Assumptions of every theorem = Closed under the global context)",
